@@ -1073,12 +1073,22 @@ func (m *Nitro) LoadFromDisk(dir string, concurr int, callb ItemCallback) (*Snap
 	if bs, err = ioutil.ReadFile(filepath.Join(datadir, "files.json")); err != nil {
 		return nil, err
 	}
-	json.Unmarshal(bs, &files)
+	if err = json.Unmarshal(bs, &files); err != nil {
+		return nil, err
+	}
 
+	// Backups written before checksums were introduced have no checksums.json
+	var hasChecksums bool
 	if bs, err := ioutil.ReadFile(filepath.Join(datadir, "checksums.json")); err == nil {
-		json.Unmarshal(bs, &checksums)
-	} else {
-		checksums = make([]uint32, len(files))
+		if err = json.Unmarshal(bs, &checksums); err != nil {
+			return nil, err
+		}
+		if len(checksums) != len(files) {
+			return nil, ErrCorruptSnapshot
+		}
+		hasChecksums = true
+	} else if !os.IsNotExist(err) {
+		return nil, err
 	}
 
 	var nodeCallb skiplist.NodeCallback
@@ -1145,7 +1155,7 @@ func (m *Nitro) LoadFromDisk(dir string, concurr int, callb ItemCallback) (*Snap
 	close(wchan)
 	wg.Wait()
 	for i, rdr := range readers {
-		if checksums[i] != 0 && checksums[i] != rdr.Checksum() {
+		if hasChecksums && checksums[i] != rdr.Checksum() {
 			return nil, ErrCorruptSnapshot
 		}
 	}
